@@ -564,6 +564,8 @@ pub fn replay_case(case: &Value) -> Option<Found> {
         "C21" => Some(c21_case(case)),
         "C22" => Some(c22_case(case)),
         "C24" => Some(crate::e2c::c24_case(case)),
+        "C27" => Some(crate::e2d::c27_case(case)),
+        "C23" | "C28" => crate::e2f::replay_case(case),
         _ => None,
     }
 }
